@@ -423,3 +423,312 @@ Proof.
     rewrite (proj1 (Permutation_count_occ name_dec _ _) P).
     apply NoDup_count_occ'; assumption.
 Qed.
+
+Lemma fill_v1_r0 h p (ring : list name) : fill_v1 h p 0 ring = Ok (map (fun _ => []) (seq 0 p)).
+Proof.
+  unfold fill_v1, nseq. rewrite map_map.
+  rewrite (all_some_map _ (fun _ => @nil name)); [reflexivity|]. intros; reflexivity.
+Qed.
+
+(* ---------- getNodeNameList ---------- *)
+Lemma dedup_In x l : In x (dedup l) <-> In x l.
+Proof.
+  induction l as [|y l IH]; simpl; [tauto|].
+  destruct (mem_name y l) eqn:E.
+  - rewrite IH. apply mem_name_In in E. split; [auto|]. intros [->|H]; assumption.
+  - simpl. rewrite IH. tauto.
+Qed.
+Lemma dedup_NoDup l : NoDup (dedup l).
+Proof.
+  induction l as [|y l IH]; simpl; [constructor|].
+  destruct (mem_name y l) eqn:E; [exact IH|].
+  constructor; [|exact IH]. rewrite dedup_In. apply mem_name_false. exact E.
+Qed.
+
+Definition dc_key (nt : list N * tag) : bytes := dc_of (snd nt).
+Definition dcs_of (nodes : list (list N * tag)) : list bytes := sort_names (dedup (map dc_key nodes)).
+Definition dc_members (nodes : list (list N * tag)) (dc : bytes) : list (list N * tag) :=
+  filter (fun nt => bytes_eqb (dc_of (snd nt)) dc) nodes.
+
+Lemma node_name_list_eq nodes :
+  node_name_list nodes = map (fun dc => sort_names (map fst (dc_members nodes dc))) (dcs_of nodes).
+Proof. reflexivity. Qed.
+
+Lemma dcs_of_NoDup nodes : NoDup (dcs_of nodes).
+Proof. unfold dcs_of. eapply Permutation_NoDup; [apply sort_names_perm|apply dedup_NoDup]. Qed.
+Lemma dcs_of_In nodes dc : In dc (dcs_of nodes) <-> In dc (map dc_key nodes).
+Proof. unfold dcs_of. rewrite sort_names_In, dedup_In. tauto. Qed.
+
+(* grouping by a key over a duplicate-free list of keys that covers all keys is a partition *)
+Lemma group_cons_perm {A} (key : A -> bytes) (x : A) (l : list A) (keys : list bytes) :
+  NoDup keys ->
+  Permutation (concat (map (fun k => filter (fun y => bytes_eqb (key y) k) (x :: l)) keys))
+              ((if mem_name (key x) keys then [x] else []) ++ concat (map (fun k => filter (fun y => bytes_eqb (key y) k) l) keys)).
+Proof.
+  induction keys as [|k keys IH]; intros Hnd; simpl; [reflexivity|].
+  inversion Hnd as [|? ? Hnk Hnd']; subst. specialize (IH Hnd').
+  destruct (bytes_eqb (key x) k) eqn:E; simpl.
+  - apply bytes_eqb_eq in E. subst k.
+    assert (Hm : mem_name (key x) keys = false) by (apply mem_name_false; exact Hnk).
+    rewrite Hm in IH. simpl in IH. constructor. apply Permutation_app_head. exact IH.
+  - rewrite IH. destruct (mem_name (key x) keys); simpl; [|reflexivity].
+    symmetry. apply Permutation_middle.
+Qed.
+Lemma group_perm {A} (key : A -> bytes) (l : list A) (keys : list bytes) :
+  NoDup keys -> (forall x, In x l -> In (key x) keys) ->
+  Permutation (concat (map (fun k => filter (fun y => bytes_eqb (key y) k) l) keys)) l.
+Proof.
+  intros Hnd. induction l as [|x l IH]; intros Hcov.
+  - simpl. induction keys; simpl; [reflexivity|]. apply IHkeys. inversion Hnd; assumption. intros ? [].
+  - rewrite group_cons_perm by exact Hnd.
+    assert (Hm : mem_name (key x) keys = true) by (apply mem_name_In, Hcov; left; reflexivity).
+    rewrite Hm. simpl. constructor. apply IH. intros y Hy. apply Hcov. right. exact Hy.
+Qed.
+
+Theorem node_name_list_perm nodes : Permutation (concat (node_name_list nodes)) (map fst nodes).
+Proof.
+  rewrite node_name_list_eq.
+  transitivity (concat (map (fun dc => map fst (dc_members nodes dc)) (dcs_of nodes))).
+  - generalize (dcs_of nodes). intros ks. induction ks as [|k ks IH]; simpl; [reflexivity|].
+    apply Permutation_app; [symmetry; apply sort_names_perm|exact IH].
+  - replace (map (fun dc => map fst (dc_members nodes dc)) (dcs_of nodes))
+      with (map (map fst) (map (dc_members nodes) (dcs_of nodes))) by (rewrite map_map; reflexivity).
+    rewrite <- concat_map. apply Permutation_map.
+    apply (group_perm dc_key nodes (dcs_of nodes) (dcs_of_NoDup nodes)).
+    intros x Hx. apply dcs_of_In. apply in_map. exact Hx.
+Qed.
+
+(* independence of the order in which the Go map delivers the nodes *)
+Lemma dcs_of_perm nodes nodes' : Permutation nodes nodes' -> dcs_of nodes = dcs_of nodes'.
+Proof.
+  intros P. unfold dcs_of. apply sort_names_perm_eq.
+  apply NoDup_Permutation; try apply dedup_NoDup.
+  intros x. rewrite !dedup_In. split; apply Permutation_in; [|symmetry]; apply Permutation_map; exact P.
+Qed.
+Lemma filter_perm {A} (f : A -> bool) l l' : Permutation l l' -> Permutation (filter f l) (filter f l').
+Proof.
+  induction 1 as [|x l l' _ IH|x y l|l l' l'' _ IH1 _ IH2]; simpl.
+  - reflexivity.
+  - destruct (f x); [constructor|]; exact IH.
+  - destruct (f x), (f y); try reflexivity. apply perm_swap.
+  - etransitivity; eassumption.
+Qed.
+Theorem node_name_list_perm_invariant nodes nodes' :
+  Permutation nodes nodes' -> node_name_list nodes = node_name_list nodes'.
+Proof.
+  intros P. rewrite !node_name_list_eq, (dcs_of_perm _ _ P).
+  apply map_ext. intros dc. apply sort_names_perm_eq. apply Permutation_map. apply filter_perm. exact P.
+Qed.
+
+Theorem rebalance_perm_invariant ver ns p r olds nodes nodes' :
+  Permutation nodes nodes' -> rebalance ver ns p r olds nodes = rebalance ver ns p r olds nodes'.
+Proof.
+  intros P. unfold rebalance. rewrite (Permutation_length P), (node_name_list_perm_invariant _ _ P). reflexivity.
+Qed.
+
+(* the DC of a node id *)
+Definition node_dc (nodes : list (list N * tag)) (x : list N) : bytes :=
+  match find (fun nt => bytes_eqb (fst nt) x) nodes with
+  | Some nt => dc_of (snd nt)
+  | None => []
+  end.
+Lemma node_dc_in nodes x t : NoDup (map fst nodes) -> In (x, t) nodes -> node_dc nodes x = dc_of t.
+Proof.
+  unfold node_dc. induction nodes as [|[y u] nodes IH]; intros Hnd Hin; [destruct Hin|].
+  simpl in *. inversion Hnd as [|? ? Hny Hnd']; subst.
+  destruct (bytes_eqb y x) eqn:E.
+  - apply bytes_eqb_eq in E. subst y. destruct Hin as [Heq|Hin]; [inversion Heq; reflexivity|].
+    exfalso. apply Hny. apply in_map_iff. exists (x, t). split; [reflexivity|exact Hin].
+  - destruct Hin as [Heq|Hin]; [inversion Heq; subst; rewrite bytes_eqb_refl in E; discriminate|].
+    apply IH; assumption.
+Qed.
+
+Lemma nnl_member_dc nodes c x :
+  NoDup (map fst nodes) -> c < length (dcs_of nodes) ->
+  In x (nth c (node_name_list nodes) []) -> node_dc nodes x = nth c (dcs_of nodes) [].
+Proof.
+  intros Hnd Hc Hx. rewrite node_name_list_eq in Hx.
+  rewrite (nth_map_lt _ _ _ _ ([] : bytes)) in Hx by exact Hc.
+  rewrite sort_names_In in Hx. apply in_map_iff in Hx. destruct Hx as [[y t] [Hy Hin]]. simpl in Hy. subst y.
+  apply filter_In in Hin. destruct Hin as [Hin E]. simpl in E. apply bytes_eqb_eq in E.
+  rewrite (node_dc_in nodes x t Hnd Hin). exact E.
+Qed.
+
+Definition even_topology (nodes : list (list N * tag)) (k : nat) : Prop :=
+  forall dc, In dc (dcs_of nodes) -> length (dc_members nodes dc) = k.
+
+Lemma nnl_even_lengths nodes k : even_topology nodes k ->
+  Forall (fun l : list (list N) => length l = k) (node_name_list nodes).
+Proof.
+  intros He. rewrite node_name_list_eq. apply Forall_map. apply Forall_forall. intros dc Hdc.
+  rewrite sort_names_length, map_length. apply He. exact Hdc.
+Qed.
+Lemma nnl_length nodes : length (node_name_list nodes) = length (dcs_of nodes).
+Proof. rewrite node_name_list_eq, map_length. reflexivity. Qed.
+
+(* position of a value in a list *)
+Fixpoint pos_in (x : bytes) (l : list bytes) : nat :=
+  match l with
+  | [] => 0
+  | y :: r => if bytes_eqb x y then 0 else S (pos_in x r)
+  end.
+Lemma pos_in_nth l : NoDup l -> forall c, c < length l -> pos_in (nth c l []) l = c.
+Proof.
+  induction l as [|y l IH]; intros Hnd c Hc; [simpl in Hc; lia|].
+  inversion Hnd as [|? ? Hny Hnd']; subst. destruct c as [|c]; simpl.
+  - rewrite bytes_eqb_refl. reflexivity.
+  - destruct (bytes_eqb (nth c l []) y) eqn:E.
+    + apply bytes_eqb_eq in E. exfalso. apply Hny. rewrite <- E. apply nth_In. simpl in Hc. lia.
+    + f_equal. apply IH; [exact Hnd'|simpl in Hc; lia].
+Qed.
+
+(* the ring built from an even topology: slot s holds a node of DC number s mod d *)
+Lemma even_ring_class nodes k :
+  NoDup (map fst nodes) -> even_topology nodes k -> k <> 0 ->
+  let ring := ring_of_lists (node_name_list nodes) in
+  let d := length (dcs_of nodes) in
+  length ring = k * d /\
+  forall s, s < length ring -> pos_in (node_dc nodes (nth s ring [])) (dcs_of nodes) = s mod d.
+Proof.
+  intros Hnd He Hk ring d.
+  set (lists := node_name_list nodes).
+  set (sorted := map sort_names lists).
+  assert (Hlen : length sorted = d) by (subst sorted lists d; rewrite map_length; apply nnl_length).
+  assert (Hall : Forall (fun l : list (list N) => length l = k) sorted).
+  { subst sorted. apply Forall_map. eapply Forall_impl; [|apply nnl_even_lengths; exact He].
+    intros l Hl. simpl. rewrite sort_names_length. exact Hl. }
+  assert (Hd0 : d = 0 \/ d <> 0) by lia. destruct Hd0 as [Hd0|Hd0].
+  { assert (sorted = []) by (destruct sorted; [reflexivity|simpl in Hlen; lia]).
+    subst ring. unfold ring_of_lists. fold lists. fold sorted. rewrite H. simpl. split; [lia|intros; lia]. }
+  assert (Hfuel : k <= length (concat sorted)).
+  { destruct sorted as [|l0 s0]; [simpl in Hlen; lia|]. inversion Hall; subst. simpl. rewrite app_length. lia. }
+  assert (Hring : ring = interleave (length (concat sorted)) sorted) by reflexivity.
+  assert (HL : length ring = k * d).
+  { rewrite Hring, (interleave_even_length k) by assumption. rewrite Hlen. reflexivity. }
+  split; [exact HL|].
+  intros s Hs.
+  assert (Hq : s / d < k). { apply Nat.div_lt_upper_bound; [exact Hd0|]. rewrite HL in Hs. lia. }
+  assert (Hc : s mod d < d) by (apply Nat.mod_upper_bound; exact Hd0).
+  assert (Hnth : nth s ring [] = nth (s / d) (nth (s mod d) sorted []) []).
+  { rewrite (Nat.div_mod_eq s d) at 1. rewrite (Nat.mul_comm d), Hring. rewrite <- Hlen.
+    apply (interleave_even k); try assumption; rewrite Hlen; assumption. }
+  rewrite Hnth.
+  assert (Hin : In (nth (s / d) (nth (s mod d) sorted []) []) (nth (s mod d) lists [])).
+  { subst sorted. rewrite (nth_map_lt _ _ _ _ []) by (subst lists; rewrite nnl_length; exact Hc).
+    eapply sort_names_In. apply nth_In.
+    rewrite sort_names_length.
+    pose proof (nnl_even_lengths nodes k He) as HF. rewrite Forall_forall in HF.
+    rewrite (HF (nth (s mod d) lists [])); [exact Hq|]. apply nth_In. subst lists. rewrite nnl_length. exact Hc. }
+  rewrite (nnl_member_dc nodes (s mod d) _ Hnd Hc Hin).
+  apply pos_in_nth; [apply dcs_of_NoDup|exact Hc].
+Qed.
+
+(* ---------- V1 through the entry point ---------- *)
+Definition is_v2 (ver : bytes) : bool := bytes_eqb ver balance_v2_str.
+
+Lemma ring_facts nodes : NoDup (map fst nodes) ->
+  let ring := ring_of_lists (node_name_list nodes) in
+  Permutation (map fst nodes) ring /\ NoDup ring /\ length ring = length nodes.
+Proof.
+  intros Hnd ring.
+  assert (P : Permutation (map fst nodes) ring).
+  { subst ring. rewrite <- ring_of_lists_perm. symmetry. apply node_name_list_perm. }
+  split; [exact P|]. split; [eapply Permutation_NoDup; eassumption|].
+  rewrite <- (Permutation_length P), map_length. reflexivity.
+Qed.
+
+Lemma valid_layout_perm live live' p r l : Permutation live live' -> valid_layout live p r l -> valid_layout live' p r l.
+Proof.
+  intros P [H1 H2]. split; [exact H1|]. eapply Forall_impl; [|exact H2].
+  intros nl [A [B C]]. repeat split; try assumption. intros x Hx. eapply Permutation_in; [exact P|apply C; exact Hx].
+Qed.
+
+Lemma rebalance_unfold ver ns p r olds nodes :
+  (r <= N.of_nat (length nodes))%N -> NoDup (map fst nodes) ->
+  rebalance ver ns p r olds nodes =
+  let ring := ring_of_lists (node_name_list nodes) in
+  if is_v2 ver then fill_v2 (murmur3_32 ns) (N.to_nat p) (N.to_nat r) olds ring
+  else fill_v1 (murmur3_32 ns) (N.to_nat p) (N.to_nat r) ring.
+Proof.
+  intros Hr Hnd. unfold rebalance, rebalance_from_lists.
+  destruct (N.ltb_spec (N.of_nat (length nodes)) r) as [L|L]; [lia|].
+  rewrite (Permutation_length (node_name_list_perm nodes)), map_length.
+  destruct (N.ltb_spec (N.of_nat (length nodes)) r) as [L'|L']; [lia|]. reflexivity.
+Qed.
+
+Theorem rebalance_refuse_iff ver ns p r olds nodes :
+  NoDup (map fst nodes) ->
+  (N.of_nat (length nodes) < r)%N -> rebalance ver ns p r olds nodes = Refuse.
+Proof.
+  intros _ L. unfold rebalance. destruct (N.ltb_spec (N.of_nat (length nodes)) r); [reflexivity|lia].
+Qed.
+
+Theorem rebalance_v1_valid ver ns p r olds nodes :
+  is_v2 ver = false -> NoDup (map fst nodes) -> (r <= N.of_nat (length nodes))%N ->
+  exists l, rebalance ver ns p r olds nodes = Ok l /\ valid_layout (map fst nodes) (N.to_nat p) (N.to_nat r) l.
+Proof.
+  intros Hv Hnd Hr. rewrite rebalance_unfold by assumption. cbv zeta. rewrite Hv.
+  destruct (ring_facts nodes Hnd) as [P [Hndr HL]].
+  set (ring := ring_of_lists (node_name_list nodes)) in *.
+  destruct ring as [|x0 ring0] eqn:Ering.
+  - assert (N.to_nat r = 0) by (simpl in HL; lia). rewrite H, fill_v1_r0. eexists. split; [reflexivity|].
+    split; [rewrite map_length, seq_length; reflexivity|].
+    apply Forall_map. apply Forall_forall. intros i _. repeat split; [constructor|intros ? []].
+  - destruct (fill_v1_valid (murmur3_32 ns) (N.to_nat p) (N.to_nat r) (x0 :: ring0)) as [l [E V]];
+      [exact Hndr|rewrite HL; lia|discriminate|].
+    exists l. split; [exact E|]. eapply valid_layout_perm; [symmetry; exact P|exact V].
+Qed.
+
+Theorem rebalance_v1_dc_spread ver ns p r olds nodes k l :
+  is_v2 ver = false -> NoDup (map fst nodes) -> nodes <> [] ->
+  even_topology nodes k -> N.to_nat r <= length (dcs_of nodes) ->
+  rebalance ver ns p r olds nodes = Ok l ->
+  Forall (fun nl => NoDup (map (node_dc nodes) nl)) l.
+Proof.
+  intros Hv Hnd Hne He Hr E.
+  assert (Hd : length (dcs_of nodes) <> 0).
+  { destruct nodes as [|nt nodes']; [congruence|].
+    assert (In (dc_key nt) (dcs_of (nt :: nodes'))) by (apply dcs_of_In; left; reflexivity).
+    destruct (dcs_of (nt :: nodes')); [destruct H|simpl; lia]. }
+  assert (Hk : k <> 0).
+  { destruct (dcs_of nodes) as [|dc0 ds] eqn:Eds; [simpl in Hd; lia|].
+    assert (Hin : In dc0 (dcs_of nodes)) by (rewrite Eds; left; reflexivity).
+    rewrite <- (He dc0 Hin). apply dcs_of_In in Hin. apply in_map_iff in Hin. destruct Hin as [nt [Hk Hin]].
+    assert (In nt (dc_members nodes dc0)).
+    { apply filter_In. split; [exact Hin|]. apply bytes_eqb_eq. exact Hk. }
+    destruct (dc_members nodes dc0); [destruct H|simpl; lia]. }
+  destruct (even_ring_class nodes k Hnd He Hk) as [HL Hcls].
+  destruct (ring_facts nodes Hnd) as [P [Hndr HLn]].
+  set (ring := ring_of_lists (node_name_list nodes)) in *.
+  assert (Hrn : ring <> []).
+  { intros Hr0. rewrite Hr0 in HLn. simpl in HLn. destruct nodes; [congruence|simpl in HLn; lia]. }
+  assert (Hrle : (r <= N.of_nat (length nodes))%N).
+  { rewrite <- HLn, HL. assert (length (dcs_of nodes) <= k * length (dcs_of nodes)) by nia. lia. }
+  rewrite rebalance_unfold in E by assumption. cbv zeta in E. rewrite Hv in E. fold ring in E.
+  rewrite fill_v1_spec in E by exact Hrn. inversion E; subst l.
+  apply Forall_map. apply Forall_forall. intros i _.
+  set (cls := fun x => pos_in (node_dc nodes x) (dcs_of nodes)).
+  assert (Hn : NoDup (map cls (v1_spec_list (murmur3_32 ns) ring (N.to_nat r) i))).
+  { apply (v1_spec_list_spread _ ring _ i (length (dcs_of nodes)) cls); try assumption.
+    - exists k. exact HL. }
+  unfold cls in Hn. rewrite <- (map_map (node_dc nodes) (fun y => pos_in y (dcs_of nodes))) in Hn.
+  eapply NoDup_map_inv. exact Hn.
+Qed.
+
+Theorem rebalance_v1_leader_balance ver ns m r olds nodes l x :
+  is_v2 ver = false -> NoDup (map fst nodes) -> nodes <> [] ->
+  (0 < r)%N -> (r <= N.of_nat (length nodes))%N ->
+  rebalance ver ns (N.of_nat (m * length nodes)) r olds nodes = Ok l ->
+  In x (map fst nodes) ->
+  count_occ name_dec (leaders l) x = m.
+Proof.
+  intros Hv Hnd Hne Hr0 Hr E Hx.
+  destruct (ring_facts nodes Hnd) as [P [Hndr HLn]].
+  set (ring := ring_of_lists (node_name_list nodes)) in *.
+  assert (Hrn : ring <> []).
+  { intros Hr1. rewrite Hr1 in HLn. simpl in HLn. destruct nodes; [congruence|simpl in HLn; lia]. }
+  rewrite rebalance_unfold in E by assumption. cbv zeta in E. rewrite Hv in E. fold ring in E.
+  rewrite fill_v1_spec in E by exact Hrn. inversion E; subst l.
+  rewrite Nat2N.id, <- HLn.
+  apply v1_leader_balance; try assumption; [lia|]. eapply Permutation_in; eassumption.
+Qed.
